@@ -51,3 +51,17 @@ Print Assumptions C13_doc_key_injective.
 Theorem C13_meta_key_injective : forall c c', coll_key c = coll_key c' -> c = c'.
 Proof. exact coll_key_inj. Qed.
 Print Assumptions C13_meta_key_injective.
+
+(* ---- over whole histories (HistDom.v: every operation in the domain of the state it is applied to) ---- *)
+From Clover Require Import HistDom HistoryProofs.
+
+(* after any history in the domain the catalog keys are exactly the collections of the abstract database *)
+Theorem C13_catalog_after_any_history :
+  forall (ops : list op) (db : sdb) (s : kv),
+         hist_dom empty_db ops ->
+         s = final_store ops ->
+         wf_db db ->
+         R db s -> forall c : bytes, kv_get (coll_key c) s <> None <-> assoc c db <> None.
+Proof. exact history_catalog. Qed.
+Print Assumptions C13_catalog_after_any_history.
+
